@@ -765,6 +765,15 @@ func (e *engine) call(fn *ssa.Function, c ssa.CallInstruction) {
 		if strings.HasPrefix(name, "sync/atomic.") {
 			return
 		}
+		// sort.SearchInts(a, x) compares the elements of a with x: both sides must move together; the index returned
+		// does not move
+		if name == "sort.SearchInts" && len(args) == 2 {
+			e.eq(fn, in, "comparison inside sort.SearchInts: elements and the value searched for must move together", e.elemVar(fn, args[0], 0), e.operand(fn, in, args[1]))
+			if cv != nil {
+				e.fix(fn, in, "index returned by sort.SearchInts", e.valVar(fn, cv), 0)
+			}
+			return
+		}
 		for _, a := range args {
 			if isInt(a.Type()) {
 				if _, isC := a.(*ssa.Const); isC {
